@@ -63,11 +63,13 @@ Fixpoint run_ops (t : octree) (ops : list oc_op) : outcome (list oc_obs) :=
   match ops with
   | [] => Ok []
   | OIns c :: r => let* t' := oc_insert t c in run_ops t' r
-  | OPrune :: r => run_ops (oc_prune t) r
+  | OPrune :: r => let* t' := oc_prune t in run_ops t' r
   | OPruneUntil k :: r => let* t' := prune_until k t in run_ops t' r
   | OPalette :: r =>
       let* p := build_palette t in let* o := run_ops t r in Ok (BPal p :: o)
-  | ODigraph :: r => let* o := run_ops t r in Ok (BDig (digraph t) :: o)
+  | ODigraph :: r =>
+      if has_zero_leaf t then Panic 1104
+      else let* o := run_ops t r in Ok (BDig (digraph t) :: o)
   end.
 
 Fixpoint dnode_eqb (a b : dnode) {struct a} : bool :=
@@ -133,7 +135,14 @@ Definition qres_eqb (a b : list rgb * list (list N)) : bool :=
 Inductive c13_case :=
 | KD (pal qs : list rgb) (impl : list (ires (N * rgb)))
 | OCT (ops : list oc_op) (impl : ires (list oc_obs))
-| QNT (im : img) (k : N) (dither : bool) (impl : ires (list rgb * list (list N))).
+| QNT (im : img) (k : N) (dither : bool) (impl : ires (list rgb * list (list N)))
+| RND (seed : N) (impl : list N).          (* common::Rnd::with_seed(seed), successive next_u32() *)
+
+Fixpoint rnd_stream (n : nat) (st : N) : list N :=
+  match n with
+  | O => []
+  | S n' => let '(v, st') := next_u32 st in v :: rnd_stream n' st'
+  end.
 
 Definition c13_check (c : c13_case) : bool * bool :=
   match c with
@@ -148,6 +157,10 @@ Definition c13_check (c : c13_case) : bool * bool :=
        | INone => (img_height im =? 0) || (img_width im =? 0)   (* only an empty image has no palette *)
        | _ => false
        end)
+  | RND seed impl =>
+      (* the generator only matters through the sampling it drives: a different stream is a
+         broken correspondence, not by itself a violation *)
+      (nlist_eqb (rnd_stream (length impl) seed) impl, true)
   end.
 
 Definition c13_report := report c13_check.
